@@ -1,0 +1,111 @@
+//go:build verif
+
+package gbn
+
+import "time"
+
+// This file is only compiled with the build tag `verif`. It exports
+// package-internal state and constructors to the external verification
+// harness. It adds no behaviour to the package.
+
+// VQueue wraps the unexported send queue.
+type VQueue struct {
+	q    *queue
+	Sent []uint8
+}
+
+// VNewQueue creates a send queue with sequence space s whose sendPkt callback
+// records the sequence numbers that are (re)sent.
+func VNewQueue(s uint8, opts ...TimeoutOptions) *VQueue {
+	v := &VQueue{}
+	tm := NewTimeOutManager(nil, opts...)
+	v.q = newQueue(&queueCfg{
+		s: s,
+		sendPkt: func(p *PacketData) error {
+			v.Sent = append(v.Sent, p.Seq)
+			return nil
+		},
+	}, tm)
+
+	return v
+}
+
+func (v *VQueue) Set(base, top uint8) {
+	v.q.sequenceBase = base
+	v.q.sequenceTop = top
+}
+
+func (v *VQueue) Get() (uint8, uint8) {
+	return v.q.sequenceBase, v.q.sequenceTop
+}
+
+func (v *VQueue) Size() uint8                        { return v.q.size() }
+func (v *VQueue) AddPacket(p *PacketData)            { v.q.addPacket(p) }
+func (v *VQueue) ProcessACK(seq uint8) bool          { return v.q.processACK(seq) }
+func (v *VQueue) ProcessNACK(seq uint8) (bool, bool) { return v.q.processNACK(seq) }
+func (v *VQueue) Resend() error                      { return v.q.resend() }
+func (v *VQueue) Stop()                              { v.q.stop() }
+func (v *VQueue) ContentLen() int                    { return len(v.q.content) }
+
+// VSyncerExpect returns the expected ACK/NACK the syncer computes for a resend
+// of a queue with the given top.
+func VSyncerExpect(s, top uint8) (uint8, uint8) {
+	c := newSyncer(s, nil, NewTimeOutManager(nil), make(chan struct{}))
+	c.initResendUpTo(top)
+
+	return c.expectedACK, c.expectedNACK
+}
+
+func VContainsSequence(base, top, seq uint8) bool {
+	return containsSequence(base, top, seq)
+}
+
+// VConnState is a snapshot of the window bookkeeping of a connection. It must
+// only be taken while the connection's goroutines are quiescent.
+type VConnState struct {
+	N, S, RecvSeq, Base, Top, Size uint8
+	QueueLen                       int
+}
+
+func (g *GoBackNConn) VState() VConnState {
+	base, top := g.sendQueue.sequenceBase, g.sendQueue.sequenceTop
+
+	return VConnState{
+		N: g.cfg.n, S: g.cfg.s, RecvSeq: g.recvSeq, Base: base,
+		Top: top, Size: g.sendQueue.size(),
+		QueueLen: len(g.sendQueue.content),
+	}
+}
+
+// VTimeouts exposes the timeout manager of a connection.
+func (g *GoBackNConn) VTimeouts() *TimeoutManager { return g.timeoutManager }
+
+// VTimeoutState is a snapshot of the unexported TimeoutManager fields.
+type VTimeoutState struct {
+	ResendTimeout       time.Duration
+	HasSetDynamic       bool
+	ResponseCounter     int
+	LatestSYNZero       bool
+	SentTimes           int
+	ResendBoostCount    int
+	ResendOriginal      time.Duration
+	HandshakeBoostCount int
+	HandshakeOriginal   time.Duration
+}
+
+func (m *TimeoutManager) VState() VTimeoutState {
+	m.mu.RLock()
+	defer m.mu.RUnlock()
+
+	return VTimeoutState{
+		ResendTimeout:       m.resendTimeout,
+		HasSetDynamic:       m.hasSetDynamicTimeout,
+		ResponseCounter:     m.responseCounter,
+		LatestSYNZero:       m.latestSentSYNTime.IsZero(),
+		SentTimes:           len(m.sentTimes),
+		ResendBoostCount:    m.resendBooster.boostCount,
+		ResendOriginal:      m.resendBooster.originalTimeout,
+		HandshakeBoostCount: m.handshakeBooster.boostCount,
+		HandshakeOriginal:   m.handshakeBooster.originalTimeout,
+	}
+}
